@@ -8,6 +8,7 @@ from hypothesis import strategies as st
 
 from .. import gen, harness as H, lib, pipemodel as PM, refmodel as M
 from ..harness import Violation
+from .c08 import handler_cfg
 
 LEVEL = "exploration"
 RULE = (
@@ -97,6 +98,15 @@ def case_strategy(draw, allow_rle=False):
     if rle is not None:
         case["rle"] = rle
         del case["pred"], case["ref"]
+    # dimensions that must not matter for the quantities compared here: memory layout, logging/timing flags,
+    # the edge-case handler (tp>0) and the selection of global metrics
+    case["layout"] = draw(st.sampled_from(["C", "C", "C", "F", "neg", "T"]))
+    if draw(st.integers(0, 3)) == 0:
+        case["flags"] = {f: True for f in ("save_group_times", "log_times", "verbose") if draw(st.booleans())}
+    if draw(st.integers(0, 3)) == 0:
+        case["handler"] = draw(handler_cfg(["DSC", "IOU", "ASSD", "RVD", "clDSC"]))
+    if draw(st.integers(0, 3)) == 0:
+        case["gmetrics"] = draw(st.lists(st.sampled_from(PM.METRICS), min_size=0, max_size=3, unique=True))
     # instance metrics: usually all four; sometimes a subset, possibly the empty list (then only counts remain)
     if draw(st.integers(0, 5)) == 0:
         sub = draw(st.lists(st.sampled_from(PM.METRICS), min_size=0, max_size=3, unique=True))
@@ -153,8 +163,10 @@ def resolve(case):
     """Concrete config: thresholds given as 'score index' are resolved against the model's
     candidate scores."""
     pred, ref = case_arrays(case)
-    pred, ref = pred.astype(case["dtype"]), ref.astype(case["dtype"])
-    cfg = {"input": case["input"], "backend": case.get("backend"), "imetrics": case.get("imetrics", PM.METRICS), "gmetrics": []}
+    lay = case.get("layout", "C")
+    pred, ref = gen.with_layout(pred.astype(case["dtype"]), lay), gen.with_layout(ref.astype(case["dtype"]), lay)
+    cfg = {"input": case["input"], "backend": case.get("backend"), "imetrics": case.get("imetrics", PM.METRICS), "gmetrics": case.get("gmetrics", []),
+           "flags": case.get("flags"), "handler": case.get("handler")}
     pin = PM.model_instances(pred, case["input"], case.get("backend"))
     rin = PM.model_instances(ref, case["input"], case.get("backend"))
     if case.get("matcher"):
